@@ -1,27 +1,8 @@
-mod c03;
-mod common;
-
 use vcore::evid::{parse_args, silence_panics};
 
 fn main() {
     let (prop, tier, replay) = parse_args();
     silence_panics();
-    let code = match prop.as_str() {
-        "selftest" => match vcore::cek_ref::self_test() {
-            Ok(()) => {
-                println!("selftest ok");
-                0
-            }
-            Err(e) => {
-                println!("selftest FAILED: {e}");
-                2
-            }
-        },
-        "C03" => c03::run(tier, replay),
-        other => {
-            eprintln!("h_uplc: unknown property {other}");
-            2
-        }
-    };
+    let code = h_uplc::dispatch(&prop, tier, replay);
     std::process::exit(code);
 }
